@@ -175,6 +175,17 @@ pub fn decode_request(pdu: &[u8]) -> ReqDecode {
     }
 }
 
+/// For a well-formed write-multiple request: does the byte-count field agree with the data?
+/// (a request where it does not is unspecified: processing it and answering exception 03 are
+/// both acceptable)
+pub fn byte_count_consistent(pdu: &[u8]) -> bool {
+    if pdu.len() >= 6 && (pdu[0] == 15 || pdu[0] == 16) {
+        pdu[5] as usize == pdu.len() - 6
+    } else {
+        true
+    }
+}
+
 /// Is this request inside the protocol limits (what a client is allowed to transmit)?
 pub fn request_within_limits(req: &Req) -> bool {
     match req {
@@ -273,6 +284,10 @@ pub fn encode_exception(fc: u8, code: u8) -> Vec<u8> {
 #[derive(Clone, Debug, PartialEq, Eq, Hash)]
 pub enum ReplyDecode {
     Ok(Values),
+    /// the reply has exactly the length implied by the request but its byte-count field says
+    /// something else: the property neither demands nor forbids acceptance, so either these
+    /// values or a non-exception error is acceptable
+    OkLenient(Values),
     Exception(u8),
     /// anything else: the request must fail with an error that is not an exception
     Other,
@@ -302,25 +317,35 @@ pub fn decode_reply(req: &Req, pdu: &[u8]) -> ReplyDecode {
                 return ReplyDecode::Other;
             }
             let bits = unpack_bits(&body[1..], n);
-            ReplyDecode::Ok(Values::Bits(
+            let v = Values::Bits(
                 bits.into_iter()
                     .enumerate()
                     .map(|(i, b)| (start.wrapping_add(i as u16), b))
                     .collect(),
-            ))
+            );
+            if body[0] as usize == n.div_ceil(8) {
+                ReplyDecode::Ok(v)
+            } else {
+                ReplyDecode::OkLenient(v)
+            }
         }
         Req::ReadRegs { start, count, .. } => {
             let n = *count as usize;
             if body.len() != 1 + 2 * n {
                 return ReplyDecode::Other;
             }
-            ReplyDecode::Ok(Values::Regs(
+            let v = Values::Regs(
                 body[1..]
                     .chunks(2)
                     .enumerate()
                     .map(|(i, c)| (start.wrapping_add(i as u16), be16(c)))
                     .collect(),
-            ))
+            );
+            if body[0] as usize == 2 * n {
+                ReplyDecode::Ok(v)
+            } else {
+                ReplyDecode::OkLenient(v)
+            }
         }
         Req::WriteSingleCoil { addr, value } => {
             let expect: [u8; 2] = if *value { [0xFF, 0x00] } else { [0x00, 0x00] };
